@@ -132,6 +132,9 @@ def main(argv=None):
     ap.add_argument("--verbose", "-v", action="store_true")
     args = ap.parse_args(argv)
     prop, tier = args.prop, args.tier
+    global EVID
+    if args.no_bounded or args.bounded_only or args.write_lock:
+        EVID = os.path.join(_OUT, "evidence-dev")      # development runs of one layer never overwrite the evidence of a full check
     seed = int(os.environ.get("VERIF_SEED", "0"))
     t_start = time.time()
     os.makedirs(EVID, exist_ok=True)
